@@ -3,6 +3,9 @@ from __future__ import annotations
 
 import re
 
+import corr_inline
+import corr_minmax
+import corr_sumrewrite
 import semcheck
 import tgen
 import semprop
@@ -10,7 +13,8 @@ from props import _generic
 
 MODULE = "NgoVerif.Props.C02"
 LEVEL = ("Lean: C01's composition with the cost vector in the observation; aggregate algebra over sets of weighted tuples: "
-         "telescoping chain weights, sum-of-sums flattening iff tuples stay distinct (with counterexample). The passes' tuple "
+         "telescoping chain weights, sum-of-sums flattening iff tuples stay distinct (with counterexample). The models of the passes that "
+         "rewrite objectives (minmax, sum_chains, inline) are re-tied to the code here at a small size. The passes' tuple "
          "uniqueness / padding decisions are validated on the real optimize with clingo: pairs (answer set on OUT, cost per "
          "priority, absent level = 0) under --opt-mode=enum.")
 RULE = ("oracle cases = harvested programs and mutations that contain #minimize/#maximize/:~ (several statements, shared "
@@ -25,6 +29,15 @@ EXTRA = [
 ]
 
 
+def _corr(mod):
+    def f(rng, quick):
+        return mod.run(rng, 12 if quick else 1500, corpus_limit=12 if quick else None)
+    return f
+
+
+CORR = [("minmax (objectives)", _corr(corr_minmax)), ("sum rewriting (objectives)", _corr(corr_sumrewrite)), ("inline (objectives)", _corr(corr_inline))]
+
+
 def has_objective(text):
     return bool(re.search(r":~|#minimi[sz]e|#maximi[sz]e", text))
 
@@ -33,7 +46,7 @@ def run(ctx) -> int:
     default = semcheck.flags_only(*[t for t in semcheck.ALL_TRAITS if t != "duplication"])
     allf = semcheck.flags_only(*semcheck.ALL_TRAITS)
     singles = [semcheck.flags_only(t) for t in ("minmax_chains", "sum_chains", "inline", "math", "unused")]
-    return _generic.run_semantic(ctx, MODULE, LEVEL, RULE, [default, allf] + singles, "out", None, EXTRA, (260, 700), (260, 4000),
+    return _generic.run_semantic(ctx, MODULE, LEVEL, RULE, [default, allf] + singles, "out", None, EXTRA, (200, 700), (200, 4000), corr=CORR,
                                  n_inst=4, generators=list(tgen.GENERATORS.values()), outp_choices=("auto",), one_to_one=False, program_filter=has_objective,
                                  assumptions=("costs are compared per priority with absent levels read as 0",))
 
